@@ -207,8 +207,7 @@ def rule_unchecked(rep: Report, idx: SourceIndex, acc_mod, ops_cls, rows: dict, 
 	rep.consulted(tr.relpath)
 	top = tr.func('OperationTrait.try_operation')
 	tx = X(top)
-	vparam = top.params()[-1]
-	unchecked = [n for n in nodes(tx, ast.Return) if isinstance(n.value, ast.Call) and isinstance(n.value.func, ast.Attribute) and n.value.func.attr == 'returns' and [unparse(a) for a in n.value.args] == [vparam]
+	unchecked = [n for n in nodes(tx, ast.Return) if isinstance(n.value, ast.Call) and isinstance(n.value.func, ast.Attribute) and n.value.func.attr == 'returns' and len(n.value.args) == 1 and unparse(n.value.args[0]) in top.params()
 		and any(not p_ and isinstance(a, ast.Call) and unparse(a.func).endswith('.arthmetical') for a, p_ in atoms(tx, n))]
 	if not unchecked:
 		r.skip('try_operation-shape', top.where, 'OperationTrait.try_operation no longer returns method.returns(value) unchecked for non-arthmetical() operators; this rule is moot')
